@@ -506,11 +506,28 @@ func (x *c02ctx) r9() {
 							r.Fail("R02.9", name+"/operator-action-rewritten:"+c.Name(), ic.pos(as.Pos()), "function "+name+" assigns the operator action "+c.Name()+" to a node ("+types.ExprString(l)+"): the operator of an expression is no longer the one of its source token, and such rewrites are not value-preserving for every operand (for NaN operands !(a < b) is true while a >= b is false)")
 						}
 					}
+					// an action computed at run time of the compiler (a variable, a table lookup, a call
+					// result) cannot be judged: every other writer assigns a constant (round-6 seed
+					// returned the opposite comparison from a helper)
+					if tv, ok := ic.Info.Types[as.Rhs[i]]; !ok || tv.Value == nil {
+						bad++
+						r.Fail("R02.9", name+"/action-assigned-from-a-computed-value", ic.pos(as.Pos()), "function "+name+" assigns a computed action ("+types.ExprString(as.Rhs[i])+") to a node ("+types.ExprString(l)+"): outside the AST builder every writer of node.action assigns a constant that is not an operator; a computed one can rewrite the operator of an expression (!(a < b) into a >= b, which differs for NaN)")
+					}
 				case genFld:
 					if id, ok := unparen(as.Rhs[i]).(*ast.Ident); ok {
 						if f, ok := ic.Info.Uses[id].(*types.Func); ok && opGen[f] != "" {
 							bad++
 							r.Fail("R02.9", name+"/operator-generator-rewritten:"+f.Name(), ic.pos(as.Pos()), "function "+name+" installs the operator generator "+f.Name()+" on a node directly, bypassing the action table: the node computes another operator than its source token")
+						}
+					}
+					// a generator held in a variable of generator type (not a named function, a call building
+					// one, or a literal) cannot be judged either
+					if id, ok := unparen(as.Rhs[i]).(*ast.Ident); ok {
+						if v, ok := ic.Info.Uses[id].(*types.Var); ok && !v.IsField() {
+							if _, isSig := v.Type().Underlying().(*types.Signature); isSig {
+								bad++
+								r.Fail("R02.9", name+"/generator-assigned-from-a-variable:"+v.Name(), ic.pos(as.Pos()), "function "+name+" installs a generator held in the variable "+v.Name()+" on a node: which generator it is cannot be told from the assignment; outside the action table every installation names its generator")
+							}
 						}
 					}
 				}
@@ -840,5 +857,172 @@ func (x *c02ctx) r11chain() {
 	}
 	if nbad == 0 {
 		r.Pass("R02.11", "package/no-float-narrowed-through-the-other-integer-class", "", fmt.Sprintf("%d signed/unsigned conversion chains in package interp, none applied to a floating-point operand", n))
+	}
+}
+
+// r2x13 (R02.13): no dead class case. In any switch without tag whose cases are disjunctions of the
+// kind-class predicates (isInt, isUint, isFloat, isComplex, isString), the kinds a case accepts
+// are those of its predicates minus the kinds of the earlier cases; a case left with no kind can
+// never be taken - its kinds are handled by an earlier case of another class (isInt accepts the
+// unsigned kinds, so "case isInt: ... case isUint:" compares unsigned operands as signed).
+// Package-wide: the ordering may sit in a helper far from the operator generators (round-6 seed:
+// a classOf(t0, t1) helper returning an operand class).
+func (x *c02ctx) r2x13() {
+	ic, r := x.ic, x.r
+	info := ic.Info
+	predKinds := x.predicateKinds()
+	nSw, nBad := 0, 0
+	for _, name := range sortedKeys(ic.F) {
+		fi := ic.F[name]
+		if fi.Decl.Body == nil {
+			continue
+		}
+		k := 0
+		ast.Inspect(fi.Decl.Body, func(m ast.Node) bool {
+			sw, ok := m.(*ast.SwitchStmt)
+			if !ok || sw.Tag != nil {
+				return true
+			}
+			covered := map[string]bool{}
+			isClassSwitch := false
+			type caseInfo struct {
+				cc    *ast.CaseClause
+				kinds map[string]bool
+				pure  bool
+			}
+			var cis []caseInfo
+			for _, st := range sw.Body.List {
+				cc := st.(*ast.CaseClause)
+				ci := caseInfo{cc: cc, kinds: map[string]bool{}, pure: len(cc.List) > 0}
+				for _, l := range cc.List {
+					// a disjunction of predicate calls
+					var visit func(e ast.Expr) bool
+					visit = func(e ast.Expr) bool {
+						e = unparen(e)
+						if be, ok := e.(*ast.BinaryExpr); ok && be.Op == token.LOR {
+							return visit(be.X) && visit(be.Y)
+						}
+						c, ok := e.(*ast.CallExpr)
+						if !ok {
+							return false
+						}
+						f, ok := calleeOf(info, c).(*types.Func)
+						if !ok || predKinds[f] == nil {
+							return false
+						}
+						for kd := range predKinds[f] {
+							ci.kinds[kd] = true
+						}
+						return true
+					}
+					if !visit(l) {
+						ci.pure = false
+					}
+				}
+				if ci.pure {
+					isClassSwitch = true
+				}
+				cis = append(cis, ci)
+			}
+			if !isClassSwitch {
+				return true
+			}
+			nSw++
+			for _, ci := range cis {
+				if !ci.pure {
+					// an impure case (other conditions) may or may not take kinds: it covers nothing for sure
+					continue
+				}
+				left := 0
+				for kd := range ci.kinds {
+					if !covered[kd] {
+						left++
+					}
+				}
+				if left == 0 {
+					k++
+					nBad++
+					r.Fail("R02.13", fmt.Sprintf("%s/dead-class-case#%d", name, k), ic.pos(ci.cc.Pos()),
+						"in "+name+" the case "+types.ExprString(ci.cc.List[0])+" can never be taken: every kind its predicates accept is already taken by an earlier case (isInt accepts the unsigned kinds too). Operands of that class are handled as the other class: unsigned values compared or computed as signed, wrong as soon as the top bit is set")
+				}
+				for kd := range ci.kinds {
+					covered[kd] = true
+				}
+			}
+			return true
+		})
+	}
+	if nSw < 10 {
+		r.Errorf("R02.13: only %d switches over the kind-class predicates found", nSw)
+		return
+	}
+	if nBad == 0 {
+		r.Pass("R02.13", "package/no-dead-class-case", "", fmt.Sprintf("%d switches over the kind-class predicates, every case can be taken", nSw))
+	}
+}
+
+// r2x15 (R02.15): in the type rule of binary expressions, an untyped constant operand takes
+// the type of the other operand (convertUntyped on both sides) unless BOTH operands are
+// constants: every return placed before those conversions that accepts the expression (nil) is
+// guarded by a validity test of the constant value of each operand. Round-6 seed: the quotient
+// case returned as soon as the divisor was a constant, so v / c with v a float32 variable
+// divided in float64.
+func (x *c02ctx) r2x15() {
+	ic, r := x.ic, x.r
+	info := ic.Info
+	fi := ic.fn(r, "typecheck.binaryExpr")
+	if fi == nil {
+		return
+	}
+	convs := callsIn(info, fi.Decl.Body, true, "interp.typecheck.convertUntyped")
+	if len(convs) < 2 {
+		r.Errorf("R02.15: %d calls of convertUntyped found in typecheck.binaryExpr (one per operand expected)", len(convs))
+		return
+	}
+	first := convs[0].Pos()
+	for _, c := range convs {
+		if c.Pos() < first {
+			first = c.Pos()
+		}
+	}
+	rvalFld := ic.field("node", "rval")
+	n := 0
+	ast.Inspect(fi.Decl.Body, func(m ast.Node) bool {
+		rs, ok := m.(*ast.ReturnStmt)
+		if !ok || rs.Pos() > first || len(rs.Results) != 1 {
+			return true
+		}
+		if id := identOf(rs.Results[0]); id == nil || id.Name != "nil" {
+			return true
+		}
+		n++
+		owners := map[string]bool{}
+		for _, g := range pathGuards(fi.Decl.Body, rs) {
+			if !g.want {
+				continue
+			}
+			// conjuncts X.rval.IsValid()
+			var visit func(e ast.Expr)
+			visit = func(e ast.Expr) {
+				e = unparen(e)
+				if be, ok := e.(*ast.BinaryExpr); ok && be.Op == token.LAND {
+					visit(be.X)
+					visit(be.Y)
+					return
+				}
+				if c, ok := e.(*ast.CallExpr); ok {
+					if se, ok := c.Fun.(*ast.SelectorExpr); ok && se.Sel.Name == "IsValid" && selField(info, se.X) == rvalFld {
+						owners[types.ExprString(se.X.(*ast.SelectorExpr).X)] = true
+					}
+				}
+			}
+			visit(g.cond)
+		}
+		r.Check(len(owners) >= 2, "R02.15", fmt.Sprintf("typecheck.binaryExpr/accepts-before-the-operand-conversion#%d", n), ic.pos(rs.Pos()), "the conversions are skipped only when both operands are constants",
+			fmt.Sprintf("typecheck.binaryExpr returns nil at %s, before the untyped operand has been given the type of the other one, under a test of the constant value of %d operand(s) only: with one variable operand the constant keeps its untyped (float64/int) representation, so v / c with v a float32 variable is computed at another precision than compiled Go, and c / 0-like checks are skipped", ic.pos(rs.Pos()), len(owners)))
+		return true
+	})
+	if n == 0 {
+		r.Pass("R02.15", "typecheck.binaryExpr/no-acceptance-before-the-operand-conversion", ic.pos(fi.Decl.Pos()), "no early acceptance before the operand conversions")
 	}
 }
